@@ -199,6 +199,8 @@ class StackWorld:
             return
         if fault == "corrupt":
             frame = corrupt(frame)
+        if fault == "dup2":
+            frame = bytes(frame) + bytes(frame)     # the duplicate arrives in the same read
         if self.proto is not None and not self.lost and not self.tr.closing:
             # (a transport that was closed or lost its port delivers nothing more)
             self.loop.call_soon(self.proto.data_received, frame)
